@@ -298,6 +298,9 @@ fn run<T: Sc>(case: &C06Case) -> Check {
     }
     out.class(format!("S={}", base.s()));
     out.class(base.flavour());
+    for r in base.regime() {
+        out.class(r);
+    }
     skipped.sort();
     skipped.dedup();
     for s in skipped {
@@ -339,6 +342,9 @@ impl Property for C06 {
                 C06Case { base, lm, repl, zero_row }
             })
             .boxed()
+    }
+    fn pool_of(&self, case: &Self::Case) -> Option<usize> {
+        case.base.pool_size()
     }
     fn check(&self, case: &C06Case) -> Check {
         if case.base.f32 {
